@@ -5,8 +5,9 @@
 EXTENDS Blockwise, Json, SequencesExt
 CONSTANTS Grid, FaultBudget, OrphanGuard, Walks, MaxEvents, MaxReplay
 Pairs == IF Grid = "quick" THEN {<<0, 0>>, <<1, 0>>, <<0, 1>>, <<7, 7>>}
+         ELSE IF Grid = "medium" THEN {<<0, 0>>, <<1, 0>>, <<0, 1>>, <<1, 1>>, <<2, 0>>, <<6, 6>>, <<7, 7>>, <<0, 7>>}
          ELSE {<<0, 0>>, <<0, 1>>, <<1, 0>>, <<0, 2>>, <<2, 0>>, <<1, 1>>, <<2, 1>>, <<1, 2>>, <<2, 2>>, <<6, 6>>, <<6, 7>>, <<7, 6>>, <<7, 7>>, <<0, 6>>, <<6, 0>>, <<0, 7>>}
-Lens(a, b) == {0, 1} \cup {k * Size(x) + d : x \in {a, b}, k \in (IF Grid = "quick" THEN {1, 2} ELSE {1, 2, 3}), d \in {-1, 0, 1}}
+Lens(a, b) == {0, 1} \cup {k * Size(x) + d : x \in {a, b}, k \in (IF Grid \in {"quick", "medium"} THEN {1, 2} ELSE {1, 2, 3}), d \in {-1, 0, 1}}
 MMS(a, b) == IF a = 7 \/ b = 7 THEN {1152, 2500} ELSE {2048}
 Scen(a, b, cm, sm) ==
   {[L |-> l, L2 |-> 5, CS |-> a, SS |-> b, CMMS |-> cm, SMMS |-> sm, Faults |-> FaultBudget, Guard |-> OrphanGuard] : l \in Lens(a, b) \ {0}}
